@@ -23,10 +23,10 @@ RULE = ("well-formed documents: 1- and 2-module tuples over 24 module variants x
         "without rectangles, hard with overlapping rectangles, unknown attribute, invalid module name, one-pin net [A] and [A, w], rectangle width/height "
         "0 or negative). Non-trivial = fault-injected documents + well-formed documents with rectangles or nets; distinct by construction.")
 ASSUMPTIONS = ["derived numbers compared with relative 1e-9", "wire length is only defined (and compared) when every net member has a centre"]
-BOUNDS = {'quick': 'k<=2 complete; faults on all 1-module documents and on 2-module documents with one net', 'thorough': 'k=3 over 14 variants; faults on 3-module documents too'}
+BOUNDS = {'quick': 'k<=2 module tuples complete (all net sets for pairs over the 9-variant sub-alphabet, reduced net sets otherwise); faults on all 1-module documents and on 2-module documents with one net', 'thorough': 'k=3 over 14 variants; faults on 3-module documents too'}
 TECHNIQUE = "exhaustive fault enumeration: every (defect class x site) injected into every base document, plus exhaustive sweep of well-formed documents against a definition-level reference"
 
-from mc.props.c04 import tuples_for, nets_for   # the same document space  # noqa: E402
+from mc.props.c04 import tuples_for, nets_for, SUB9   # the same document space  # noqa: E402
 
 
 def shards(tier):
@@ -219,7 +219,8 @@ def run_shard(shard, tier, res):
     tl = tuples_for(tier)[shard['lo']:shard['hi']]
     for vt in tl:
         k = len(vt)
-        full = (k <= 2) or tier == 'thorough'
+        sub = {nd.VIDX[x] for x in SUB9}
+        full = (k == 1) or tier == 'thorough' or (k == 2 and vt[0] in sub and vt[1] in sub)
         for j, nets in enumerate(nets_for(k, tier, full)):
             case = dict(mods=list(vt), nets=[[list(m), w] for m, w in nets])
             check_case(case, res)
